@@ -76,7 +76,7 @@ def to_real(t):
 def lift(v):
     """Python / numpy number -> z3 term (exact)."""
     if isinstance(v, Sym):
-        return v.t
+        return v.term()
     if isinstance(v, bool):
         return z3.IntVal(int(v))
     if isinstance(v, int):
@@ -159,23 +159,44 @@ def tbool(x):
 
 
 class Sym:
-    """A number that depends on symbolic inputs."""
-    __slots__ = ('t',)
+    """A number that depends on symbolic inputs.
+
+    Value = t            (d is None), or
+          = t / d        with d a Real term that is > 0 on the current path (rational-function mode, Explorer(ratfun=True)):
+            quotients are kept as numerator/denominator pairs and comparisons are cross-multiplied, so the solver sees
+            polynomial constraints over the inputs only instead of one purification variable per division."""
+    __slots__ = ('t', 'd', '_q')
     __array_ufunc__ = None          # numpy scalars defer to our reflected operators
     __array_priority__ = 1000
 
-    def __init__(self, t):
+    def __init__(self, t, d=None):
         self.t = t
+        self.d = d
+        self._q = None
 
     # -- helpers
     @property
     def is_int(self):
-        return is_int(self.t)
+        return self.d is None and is_int(self.t)
 
     def const(self):
+        if self.d is not None:
+            return None
         return _const_of(self.t)
 
+    def term(self):
+        """A single z3 term for the value (a quotient is purified on demand: q*d = t)."""
+        if self.d is None:
+            return self.t
+        if self._q is None:
+            q = CUR.fresh_real('q')
+            CUR.assume_def(q * self.d == to_real(self.t))
+            self._q = q
+        return self._q
+
     def _lin(self, o, f, rev=False):
+        if self.d is not None or (isinstance(o, Sym) and o.d is not None):
+            return _rf_add(self, o, f, rev)
         a, b = self.t, lift(o)
         if rev:
             a, b = b, a
@@ -203,15 +224,23 @@ class Sym:
         return self._lin(o, lambda a, b: a - b, True)
 
     def __mul__(self, o):
+        if self.d is not None or (isinstance(o, Sym) and o.d is not None):
+            return _rf_mul(self, o)
         return Sym(_mul(self.t, lift(o)))
 
     def __rmul__(self, o):
+        if self.d is not None or (isinstance(o, Sym) and o.d is not None):
+            return _rf_mul(self, o)
         return Sym(_mul(lift(o), self.t))
 
     def __truediv__(self, o):
+        if CUR.ratfun or self.d is not None or (isinstance(o, Sym) and o.d is not None):
+            return _rf_div(self, o)
         return _truediv(self.t, lift(o))
 
     def __rtruediv__(self, o):
+        if CUR.ratfun or self.d is not None:
+            return _rf_div(o, self)
         return _truediv(lift(o), self.t)
 
     def __floordiv__(self, o):
@@ -229,8 +258,8 @@ class Sym:
     def __neg__(self):
         c = _const_of(self.t)
         if c is not None:
-            return Sym(z3.IntVal(int(-c)) if is_int(self.t) else z3.RealVal(-c))
-        return Sym(-self.t)
+            return Sym(z3.IntVal(int(-c)) if is_int(self.t) else z3.RealVal(-c), self.d)
+        return Sym(-self.t, self.d)
 
     def __pos__(self):
         return self
@@ -239,13 +268,22 @@ class Sym:
         # fork on the sign: z3's NRA is far better without If-terms (DESIGN 2.3)
         if CUR.decide(self.t >= 0):
             return self
-        return Sym(-self.t)
+        return -self
 
     def _cmp(self, o, f, pf):
         if isinstance(o, float) and (o in (INF, -INF) or o != o):
             return pf(0.0, o)          # any finite value vs +-inf / nan
         if o is None or isinstance(o, (str, bytes, tuple, list, dict)):
             return NotImplemented
+        if self.d is not None or (isinstance(o, Sym) and o.d is not None):
+            a, da = _rf_parts(self)
+            b, db = _rf_parts(o)
+            if not (da is not None and db is not None and da.get_id() == db.get_id()):
+                if db is not None:
+                    a = _mul(a, db)
+                if da is not None:
+                    b = _mul(b, da)
+            return SymBool(f(a, b))
         a, b = coerce(self.t, lift(o))
         ca, cb = _const_of(a), _const_of(b)
         if ca is not None and cb is not None:
@@ -280,6 +318,8 @@ class Sym:
     def __pow__(self, e, mod=None):
         if mod is not None:
             raise HarnessError('3-argument pow')
+        if isinstance(e, Sym) and e.d is not None:
+            raise HarnessError('symbolic exponent')
         if isinstance(e, Sym):
             c = e.const()
             if c is None:
@@ -307,7 +347,7 @@ class Sym:
         return self
 
     def __index__(self):
-        if not is_int(self.t):
+        if self.d is not None or not is_int(self.t):
             raise TypeError('Sym real used as index')
         c = _const_of(self.t)
         if c is not None:
@@ -315,13 +355,13 @@ class Sym:
         return CUR.concretize(self.t)
 
     def __int__(self):
-        c = _const_of(self.t)
+        c = self.const()
         if c is not None:
             return int(c)
         raise HarnessError('int() of a symbolic value reached the C level (use shims.sym_int)')
 
     def __float__(self):
-        c = _const_of(self.t)
+        c = self.const()
         if c is not None:
             return float(c)
         raise HarnessError('float() of a symbolic value (realisation at a C boundary)')
@@ -333,7 +373,72 @@ class Sym:
         return CUR.format_sym(self, '') if CUR is not None else 'Sym(%s)' % self.t
 
     def __repr__(self):
-        return 'Sym(%s)' % self.t
+        return 'Sym(%s)' % self.t if self.d is None else 'Sym(%s / %s)' % (self.t, self.d)
+
+
+# -- rational-function arithmetic (denominators are > 0 on the path)
+def _rf_parts(v):
+    if isinstance(v, Sym):
+        return to_real(v.t), v.d
+    return to_real(lift(v)), None
+
+
+def _rf_norm(num, den):
+    if den is not None:
+        cd = _const_of(den)
+        if cd is not None:
+            num = _mul(num, z3.RealVal(1 / cd))
+            den = None
+    return Sym(num, den)
+
+
+def _rf_add(x, o, f, rev):
+    a, da = _rf_parts(x)
+    b, db = _rf_parts(o)
+    if rev:
+        a, da, b, db = b, db, a, da
+    if da is not None and db is not None and da.get_id() == db.get_id():
+        return _rf_norm(f(a, b), da)
+    if da is None:
+        return _rf_norm(f(_mul(a, db), b), db)
+    if db is None:
+        return _rf_norm(f(a, _mul(b, da)), da)
+    return _rf_norm(f(_mul(a, db), _mul(b, da)), _mul(da, db))
+
+
+def _rf_mul(x, o):
+    a, da = _rf_parts(x)
+    b, db = _rf_parts(o)
+    # cheap cancellations  (a/da) * (b/db)
+    if db is not None and a.get_id() == db.get_id():
+        return _rf_norm(b, da)
+    if da is not None and b.get_id() == da.get_id():
+        return _rf_norm(a, db)
+    num = _mul(a, b)
+    den = da if db is None else db if da is None else _mul(da, db)
+    return _rf_norm(num, den)
+
+
+def _rf_div(x, o):
+    a, da = _rf_parts(x)
+    b, db = _rf_parts(o)
+    cb = _const_of(b)
+    if cb is not None and db is None:
+        if cb == 0:
+            raise ZeroDivisionError('float division by zero')
+        return _rf_norm(_mul(a, z3.RealVal(1 / cb)), da)
+    if CUR.decide(b == 0):
+        raise ZeroDivisionError('float division by zero')
+    # (a/da) / (b/db) = (a*db) / (da*b), keep the denominator positive
+    if da is not None and db is not None and da.get_id() == db.get_id():
+        da = db = None
+    num = a if db is None else _mul(a, db)
+    if CUR.decide(b > 0):
+        den = b if da is None else _mul(da, b)
+    else:
+        num = -num
+        den = -b if da is None else _mul(da, -b)
+    return _rf_norm(num, den)
 
 
 def _ipow(s, e):
@@ -356,6 +461,15 @@ def _ipow(s, e):
 def _root(s, n):
     if n == 1:
         return s if not s.is_int else Sym(to_real(s.t))
+    if s.d is not None:
+        if CUR.decide(to_real(s.t) < 0):
+            raise ValueError('root of a negative number')
+        d = CUR.fresh_real('root%d' % n)
+        p = d
+        for _ in range(n - 1):
+            p = p * d
+        CUR.assume_def(z3.And(d >= 0, p * s.d == to_real(s.t)))
+        return Sym(d)
     a = to_real(s.t)
     c = _const_of(a)
     if c is not None:
@@ -369,8 +483,13 @@ def _root(s, n):
         raise ValueError('root of a negative number')   # Python would return a complex / raise
     if CUR.mode == 'ABSTRACT':
         d = rootF(n)(a)
-        CUR.axiom(('root', n, a.get_id()), lambda: z3.And(d >= 0, (d == 0) == (a == 0)))
-        CUR.note_root(n, a, d)
+        fresh = ('root', n, a.get_id()) not in CUR._axioms
+        CUR.axiom(('root', n, a.get_id()), lambda: z3.And(d >= 0, (d == 0) == (a == 0), powF(n)(d) == a,
+                                                          z3.Implies(a == 1, d == 1), z3.Implies(z3.And(a > 0, a < 1), z3.And(d > a, d < 1)),
+                                                          z3.Implies(a > 1, z3.And(d < a, d > 1))))
+        if fresh:
+            CUR.note_root(n, a, d)
+            CUR.note_pow(n, d, powF(n)(d))
         return Sym(d)
     d = CUR.fresh_real('root%d' % n)
     p = d
@@ -400,9 +519,28 @@ def _mul(a, b):
     CUR.axiom(('mul', a.get_id(), b.get_id()), lambda: z3.And(
         (m == 0) == z3.Or(a == 0, b == 0),
         z3.Implies(z3.Or(z3.And(a > 0, b > 0), z3.And(a < 0, b < 0)), m > 0),
-        z3.Implies(z3.Or(z3.And(a > 0, b < 0), z3.And(a < 0, b > 0)), m < 0)))
+        z3.Implies(z3.Or(z3.And(a > 0, b < 0), z3.And(a < 0, b > 0)), m < 0),
+        _scale_ax(m, a, b), _scale_ax(m, b, a)))
     CUR.note_mul(a, b, m)
     return m
+
+
+def _scale_ax(m, a, b):
+    """m = a*b compared with a, by the size of b (true in real arithmetic)."""
+    return z3.And(z3.Implies(b == 1, m == a),
+                  z3.Implies(z3.And(b > 1, a > 0), m > a), z3.Implies(z3.And(b > 1, a < 0), m < a),
+                  z3.Implies(z3.And(b > 0, b < 1, a > 0), z3.And(m < a, m > 0)),
+                  z3.Implies(z3.And(b > 0, b < 1, a < 0), z3.And(m > a, m < 0)))
+
+
+def _div_ax(q, a, b):
+    """q = a/b: sign and size facts (true in real arithmetic; b != 0 on the path)."""
+    return z3.And((q == 0) == (a == 0),
+                  z3.Implies(z3.Or(z3.And(a > 0, b > 0), z3.And(a < 0, b < 0)), q > 0),
+                  z3.Implies(z3.Or(z3.And(a > 0, b < 0), z3.And(a < 0, b > 0)), q < 0),
+                  z3.Implies(b == 1, q == a),
+                  z3.Implies(z3.And(b > 1, a > 0), q < a), z3.Implies(z3.And(b > 1, a < 0), q > a),
+                  z3.Implies(z3.And(b > 0, b < 1, a > 0), q > a), z3.Implies(z3.And(b > 0, b < 1, a < 0), q < a))
 
 
 def _truediv(a, b):
@@ -419,7 +557,8 @@ def _truediv(a, b):
         raise ZeroDivisionError('float division by zero')
     if CUR.mode == 'ABSTRACT':
         q = DIVF(a, b)
-        CUR.axiom(('div', a.get_id(), b.get_id()), lambda: _mul(q, b) == a)
+        CUR.axiom(('div', a.get_id(), b.get_id()), lambda: z3.And(_mul(q, b) == a, _div_ax(q, a, b)))
+        CUR.note_div(a, b, q)
         return Sym(q)
     q = CUR.fresh_real('q')
     CUR.assume_def(q * b == a)
@@ -460,9 +599,13 @@ class Explorer:
     """Depth-first exploration of all feasible paths of a harness function."""
 
     def __init__(self, mode='EXACT', logic=None, timeout_ms=20000, max_paths=200000,
-                 max_decisions=20000, wall_s=None, name=''):
+                 max_decisions=20000, wall_s=None, name='', ratfun=False, scratch=False):
         global CUR
         self.mode = mode
+        self.ratfun = ratfun and mode == 'EXACT'
+        self.scratch = scratch
+        self.logic = logic
+        self._last = None
         self.name = name
         self.solver = z3.SolverFor(logic) if logic else z3.Solver()
         self.solver.set('timeout', timeout_ms)
@@ -494,10 +637,25 @@ class Explorer:
     # -- solver plumbing
     def check(self, *extra):
         t = time.time()
-        r = self.solver.check(*extra)
+        if self.scratch:
+            # non-incremental: z3's nlsat-based QF_NRA procedure is far stronger on a fresh solver than under
+            # push/pop + assumptions (measured: 0.06 s `unsat` from scratch vs `unknown` after 6 s incrementally)
+            sv = z3.SolverFor(self.logic) if self.logic else z3.Solver()
+            sv.set('timeout', self.timeout_ms)
+            sv.add(self.solver.assertions())
+            if extra:
+                sv.add(*extra)
+            r = sv.check()
+            self._last = sv
+        else:
+            r = self.solver.check(*extra)
+            self._last = self.solver
         self.solver_s += time.time() - t
         self.queries += 1
         return r
+
+    def model(self):
+        return self._last.model()
 
     def _model_says(self, cond):
         if self._model is None:
@@ -537,7 +695,7 @@ class Explorer:
             if guess is None:
                 r = self.check(cond)
                 if r == z3.sat:
-                    self._model = self.solver.model()
+                    self._model = self.model()
                     guess = True
                 elif r == z3.unsat:
                     guess = False
@@ -576,7 +734,7 @@ class Explorer:
         self._model = None
         r = self.check()
         if r == z3.sat:
-            self._model = self.solver.model()
+            self._model = self.model()
             return True
         if r == z3.unknown:
             self.unknown_branches += 1
@@ -602,16 +760,39 @@ class Explorer:
 
     # bookkeeping for instantiating monotonicity axioms between abstract terms
     def note_mul(self, a, b, m):
-        for (a2, b2, m2) in self._muls:
-            for (x, y, x2, y2) in ((a, b, a2, b2), (a, b, b2, a2), (b, a, a2, b2), (b, a, b2, a2)):
-                if y.get_id() == y2.get_id() and x.get_id() != x2.get_id():
-                    self.solver.add(z3.Implies(z3.And(y > 0, x <= x2), m <= m2),
-                                    z3.Implies(z3.And(y > 0, x2 <= x), m2 <= m),
-                                    z3.Implies(z3.And(y < 0, x <= x2), m >= m2),
-                                    z3.Implies(z3.And(y < 0, x2 <= x), m2 >= m))
+        """monotonicity between products that share a factor (indexed by factor; each product once)"""
+        key = (a.get_id(), b.get_id())
+        if key in self._mul_seen:
+            return
+        self._mul_seen.add(key)
+        for (x, y) in ((a, b), (b, a)):
+            for (x2, m2) in self._mul_by_arg.get(y.get_id(), ()):
+                if x.get_id() != x2.get_id():
+                    self.solver.add(z3.Implies(y > 0, z3.And((x < x2) == (m < m2), (x == x2) == (m == m2))),
+                                    z3.Implies(y < 0, z3.And((x < x2) == (m > m2), (x == x2) == (m == m2))))
                     self._model = None
-                    break
-        self._muls.append((a, b, m))
+            if a.get_id() == b.get_id():
+                break
+        self._mul_by_arg.setdefault(b.get_id(), []).append((a, m))
+        if a.get_id() != b.get_id():
+            self._mul_by_arg.setdefault(a.get_id(), []).append((b, m))
+
+    def note_div(self, a, b, q):
+        """cross-multiplication / monotonicity between quotients that share the numerator or the denominator"""
+        if any(q.get_id() == q2.get_id() for (_, _, q2) in self._divs):
+            return
+        for (a2, b2, q2) in self._divs:
+            if a2.get_id() == a.get_id() and b2.get_id() != b.get_id():
+                # a/b <= b2  <=>  a <= b*b2  <=>  a/b2 <= b      (b, b2 > 0)
+                self.solver.add(z3.Implies(z3.And(b > 0, b2 > 0), z3.And((q <= b2) == (q2 <= b), (q < b2) == (q2 < b))),
+                                z3.Implies(z3.And(b > 0, b2 > 0, a > 0), z3.And((b < b2) == (q2 < q), (b == b2) == (q == q2))),
+                                z3.Implies(z3.And(b > 0, b2 > 0, a < 0), (b < b2) == (q < q2)))
+                self._model = None
+            if b2.get_id() == b.get_id() and a2.get_id() != a.get_id():
+                self.solver.add(z3.Implies(b > 0, z3.And((a < a2) == (q < q2), (a == a2) == (q == q2))),
+                                z3.Implies(b < 0, z3.And((a < a2) == (q > q2), (a == a2) == (q == q2))))
+                self._model = None
+        self._divs.append((a, b, q))
 
     def note_root(self, n, a, d):
         for (n2, a2, d2) in self._roots:
@@ -624,7 +805,8 @@ class Explorer:
         for (e2, a2, p2) in self._pows:
             if e2 == e and a2.get_id() != a.get_id():
                 self.solver.add(z3.Implies(z3.And(a >= 0, a2 >= 0, a < a2), p < p2),
-                                z3.Implies(z3.And(a >= 0, a2 >= 0, a2 < a), p2 < p))
+                                z3.Implies(z3.And(a >= 0, a2 >= 0, a2 < a), p2 < p),
+                                z3.Implies(z3.And(a >= 0, a2 >= 0, a == a2), p == p2))
                 self._model = None
         self._pows.append((e, a, p))
 
@@ -657,7 +839,7 @@ class Explorer:
         r = self.check()
         if r != z3.sat:
             return None
-        m = self.solver.model()
+        m = self.model()
         self._model = m
         return m.eval(t, model_completion=True).as_long()
 
@@ -712,7 +894,7 @@ class Explorer:
             self.discharged += 1
             return True
         if r == z3.sat:
-            m = self.solver.model()
+            m = self.model()
             model = {}
             for n, v in self.inputs.items():
                 try:
@@ -726,6 +908,31 @@ class Explorer:
         self.unknown_obligations.append(label)
         return None
 
+    def prove_batch(self, items):
+        """items: [(cond, label, detail)].  One query for the conjunction; individual queries only if it is not `unsat`."""
+        if self.dead:
+            return
+        conds = []
+        for cond, label, detail in items:
+            if isinstance(cond, SymBool):
+                cond = cond.t
+            if isinstance(cond, bool):
+                cond = z3.BoolVal(cond)
+            conds.append((z3.simplify(cond), cond, label, detail))
+        open_ = [c for c in conds if not z3.is_true(c[0])]
+        self.obligations += len(conds) - len(open_)
+        self.discharged += len(conds) - len(open_)
+        if not open_:
+            return
+        if len(open_) > 1:
+            r = self.check(z3.Not(z3.And(*[c[1] for c in open_])))
+            if r == z3.unsat:
+                self.obligations += len(open_)
+                self.discharged += len(open_)
+                return
+        for _, cond, label, detail in open_:
+            self.prove(cond, label, detail)
+
     def find(self, cond):
         """A model of  pc /\\ cond  restricted to the declared inputs, or None (unsat / unknown)."""
         if isinstance(cond, SymBool):
@@ -735,7 +942,7 @@ class Explorer:
         r = self.check(cond)
         if r != z3.sat:
             return None
-        m = self.solver.model()
+        m = self.model()
         return {n: str(m.eval(v, model_completion=True)) for n, v in self.inputs.items()}
 
     def model_values(self):
@@ -743,7 +950,7 @@ class Explorer:
         r = self.check()
         if r != z3.sat:
             return None
-        m = self.solver.model()
+        m = self.model()
         self._model = m
         out = {}
         for n, v in self.inputs.items():
@@ -763,8 +970,11 @@ class Explorer:
             self._fresh = 0
             self._axioms = set()
             self._muls = []
+            self._mul_seen = set()
+            self._mul_by_arg = {}
             self._roots = []
             self._pows = []
+            self._divs = []
             self._model = None
             self.dead = False
             self._dead_steps = 0
